@@ -964,6 +964,9 @@ func (w *world) step(bp *blockPlan) bool {
 }
 
 func runHistory(d histDesc, run *runner, record bool) *histResult {
+	if d.Stream == "schedvrf" {
+		return runSchedVRF(d)
+	}
 	if !record {
 		run = nil
 	}
